@@ -29,6 +29,13 @@ func (e *Exec) ghostAppend(st *BState, name string, elem types.Type, v SV) {
 	if name == "IN" || name == "OUT" {
 		e.netUpdate(st, name, v)
 	}
+	if name == "OUTM" {
+		// ghost: how many records had been produced when the latest metadata message was sent
+		if o, ok := st.ghost["OUT"]; ok {
+			st.ghost["$outAtMeta"] = intSV(o.(*SliceV).Len)
+			ghostTypes["$outAtMeta"] = types.Typ[types.Int]
+		}
+	}
 	e.storeElem(st, sl, sl.Len, elem, v)
 	// assumption (listed): traces are shorter than 2^63 events
 	e.assume(implies(st.reach, lt(sl.Len, bigLit("MAX64"))))
@@ -49,6 +56,14 @@ func (e *Exec) dynamicCall(st *BState, x *ssa.Call, args []SV) (SV, bool) {
 	case namedIs(t, "octosql/execution", "MetaSendFn"):
 		e.ghostAppend(st, "OUTM", x.Call.Args[1].Type(), args[1])
 	default:
+		// func(record Record) error: a produce function with its context already applied (ProduceFnApplyContext)
+		sig, ok := t.Underlying().(*types.Signature)
+		if ok && sig.Params().Len() == 1 && sig.Results().Len() == 1 && namedIs(sig.Params().At(0).Type(), "octosql/execution", "Record") {
+			if _, has := st.ghost["OUT"]; has {
+				e.ghostAppend(st, "OUT", x.Call.Args[0].Type(), args[0])
+				return e.freshSV(x.Type(), "cb.err", st.reach, false), true
+			}
+		}
 		return nil, false
 	}
 	return e.freshSV(x.Type(), "cb.err", st.reach, false), true
@@ -91,6 +106,16 @@ func writeKeys(f *ssa.Function, seen map[*ssa.Function]bool, out map[string]bool
 				if g, ok := x.Call.Value.(*ssa.Function); ok {
 					if isHashmapMethod(g, "Put") || isHashmapMethod(g, "Remove") {
 						out["C|hashmap|"] = true
+					}
+					if m, isBt := btreeMethod(g); isBt {
+						if m == "ReplaceOrInsert" || strings.HasPrefix(m, "Delete") {
+							out["C|btree|"] = true
+						}
+						if m == "New" {
+							out["C|btree|"] = true
+							out["$frontier"] = true
+						}
+						continue
 					}
 					if _, ext := externs[g.String()]; !ext {
 						writeKeys(g, seen, out)
